@@ -54,7 +54,7 @@ def _retarget(t, db):
 
 
 def inlinable(facts, t, stack, want=None, closures=False):
-    if t.get("k") != "call" or not t.get("resl") or is_noise(t):
+    if t.get("k") != "call" or not t.get("resl") or is_noise(t) or t.get("no_splice"):
         return None
     ck = t.get("res")
     raw = facts.data["fns"].get(ck)
@@ -63,6 +63,17 @@ def inlinable(facts, t, stack, want=None, closures=False):
     if t.get("synthetic_closure_call"):
         if raw.get("kind") != "Closure" or ck in stack or int(raw["argc"]) != len(t.get("args", [])):
             return None
+        return ck
+    if raw.get("kind") == "Closure" and len(raw.get("locals", [])) > 1 and raw["locals"][1].startswith("{async") and \
+            (t.get("decl") or "").endswith("Future::poll") and len(t.get("args", [])) == 2:
+        # `.await` of a crate-local async fn / async block: Future::poll resolved to the coroutine body
+        if not closures or ck in stack:
+            return None
+        parent = raw.get("parent")
+        praw = facts.data["fns"].get(parent) if parent else None
+        if want is not None and praw is not None and praw.get("kind") in ("Fn", "AssocFn") and not want(parent, praw):
+            return None
+        t["await_splice"] = True
         return ck
     if raw.get("kind") == "Closure":
         # a local closure called directly: `let f = |x| ..; f(a)` is Fn*::call*(f, (a,)) resolved to the closure body
@@ -440,6 +451,56 @@ def _thread_returns(d, blocks, lo, hi, ret_local, glue, level, stack_of):
         blocks[prev]["t"] = {"k": "goto", "t": arm, "l": tt.get("l"), "threaded": True}
 
 
+def _trace_coroutine_local(blocks, arg0):
+    """Local holding the coroutine that `Future::poll(Pin::new_unchecked(&mut f), cx)` polls (the `.await` desugaring):
+    pinned ref <- Pin::new_unchecked(&mut X) <- X = into_future(Y) <- Y = moves ... <- coroutine aggregate."""
+    def defs_of(l):
+        out = []
+        for blk in blocks:
+            for st in blk["s"]:
+                if st.get("k") == "assign" and st["p"]["l"] == l and not st["p"]["p"]:
+                    out.append(("stmt", st))
+            tt = blk["t"]
+            if tt.get("k") == "call" and tt["dest"]["l"] == l and not tt["dest"]["p"]:
+                out.append(("call", tt))
+        return out
+    pl = arg0.get("m") or arg0.get("c")
+    if pl is None or pl["p"]:
+        return None
+    l = pl["l"]
+    for _ in range(24):
+        ds = defs_of(l)
+        if len(ds) != 1:
+            return None
+        kind, x = ds[0]
+        if kind == "call":
+            name = (x.get("decl") or "")
+            if name.endswith("new_unchecked") or name.endswith("into_future") or name.endswith("Pin::new"):
+                q = x["args"][0].get("m") or x["args"][0].get("c")
+                if q is None or q["p"]:
+                    return None
+                l = q["l"]
+                continue
+            return None
+        r = x["r"]
+        if r["k"] == "agg" and "coroutine" in r:
+            return l
+        if r["k"] == "use":
+            q = r["o"].get("m") or r["o"].get("c")
+            if q is None or q["p"]:
+                return None
+            l = q["l"]
+            continue
+        if r["k"] == "ref":
+            q = r["p"]
+            if q["p"] not in ([], ["*"]):
+                return None
+            l = q["l"]
+            continue
+        return None
+    return None
+
+
 def inline(facts, fn, depth=2, want=None, expand=False):
     d = copy.deepcopy(fn.d)
     expanded = []
@@ -500,7 +561,29 @@ def inline(facts, fn, depth=2, want=None, expand=False):
         if glue is not None:
             _thread_returns(d, blocks, db, db + nb, dl, glue, level, stack_of)
         # argument passing + jump
-        if t.get("rust_call"):
+        if t.get("await_splice"):
+            cor = _trace_coroutine_local(blocks, t["args"][0])
+            if cor is None:
+                # cannot find the coroutine value: undo the splice (leave the call)
+                del blocks[db:]
+                d["locals"] = d["locals"][:dl]
+                if "user" in d:
+                    d["user"] = d["user"][:dl]
+                t.pop("await_splice", None)
+                t["no_splice"] = True
+                b += 1
+                continue
+            blk["s"].append({"k": "assign", "p": {"l": dl + 1, "p": []}, "r": {"k": "use", "o": {"m": {"l": cor, "p": []}}}, "l": t.get("l"), "inl_arg": ck})
+            blk["s"].append({"k": "assign", "p": {"l": dl + 2, "p": []}, "r": {"k": "use", "o": copy.deepcopy(t["args"][1])}, "l": t.get("l"), "inl_arg": ck})
+            # the spliced body returns the awaited value: the poll "answers" Ready(value)
+            g_ = blocks[glue]
+            tmp = len(d["locals"])
+            d["locals"] = d["locals"] + ["?"]
+            if "user" in d:
+                d["user"] = d["user"] + ["false"]
+            g_["s"] = [{"k": "assign", "p": {"l": tmp, "p": []}, "r": {"k": "use", "o": {"m": {"l": dl, "p": []}}}, "l": t.get("l")},
+                       {"k": "assign", "p": copy.deepcopy(dest), "r": {"k": "agg", "adt": "std::task::Poll", "v": "Ready", "vi": 0, "fields": ["0"], "ops": [{"m": {"l": tmp, "p": []}}]}, "l": t.get("l"), "inl_glue": ck}]
+        elif t.get("rust_call"):
             blk["s"].append({"k": "assign", "p": {"l": dl + 1, "p": []}, "r": {"k": "use", "o": copy.deepcopy(t["args"][0])}, "l": t.get("l"), "inl_arg": ck})
             tup = t["args"][1].get("m") or t["args"][1].get("c")
             for i in range(int(raw["argc"]) - 1):
